@@ -1432,6 +1432,11 @@ func (w *envelopingWriter) handleEnvelopeWritten() error {
 		w.rw.reportError(err)
 		return err
 	}
+	if env.compressed && w.rw.op.server.respCompression == nil {
+		err := errors.New("response message is marked compressed but the response declares no compression")
+		w.rw.reportError(err)
+		return err
+	}
 	if env.trailer {
 		// buffer final message, so we can transform it to a responseEnd
 		if limit := w.rw.op.methodConf.maxMsgBufferBytes; env.length > limit {
@@ -1645,6 +1650,11 @@ func (w *transformingWriter) Write(data []byte) (n int, err error) {
 			w.latestEnvelope, err = w.rw.op.serverEnveloper.decodeEnvelope(envBytes)
 			if err != nil {
 				err = malformedRequestError(err)
+				w.rw.reportError(err)
+				return written, err
+			}
+			if w.latestEnvelope.compressed && w.rw.op.server.respCompression == nil {
+				err = errors.New("response message is marked compressed but the response declares no compression")
 				w.rw.reportError(err)
 				return written, err
 			}
